@@ -27,6 +27,10 @@ type Case struct {
 	// managed TLS and one that does not, in either order), because a
 	// directive is set up once per key and may judge the keys differently.
 	Keys int `json:"keys,omitempty"`
+	// After are surplus tokens on the line of the sub-block's closing brace.
+	After []string `json:"after,omitempty"`
+	// MustStart: always part of the validate-against-start comparison.
+	MustStart bool `json:"must_start,omitempty"`
 }
 
 // Addr renders the address list of the case's site block.
@@ -91,6 +95,10 @@ func (k *Case) Directive() string {
 			b.WriteByte('\n')
 		}
 		b.WriteString("\t}")
+		if len(k.After) > 0 {
+			b.WriteByte(' ')
+			b.WriteString(renderToks(k.After))
+		}
 	}
 	return b.String()
 }
@@ -139,7 +147,7 @@ func lexClasses(sandbox bool, fix string) lex {
 		l.all = append([]string{"/"}, l.all...)
 		l.core = append([]string{"/"}, l.core...)
 	}
-	l.sfx = []string{"", "x", p("missing"), p("ok.txt"), "ht.txt", "1"}
+	l.sfx = []string{"", "x", p("missing"), p("ok.txt"), "ht.txt", "htbad.txt", "1"}
 	return l
 }
 
@@ -283,6 +291,15 @@ func genPhase1(c *lib.Ctx, d *dirVocab, b budget) []*Case {
 		must = append(must, mk([]string{a}, true))
 		for _, a2 := range d.C {
 			must = append(must, mk([]string{a, a2}, false))
+		}
+	}
+	// tokens that name one of the fixture's user files, in the positions
+	// where a directive looks for them
+	for _, a := range d.V {
+		if strings.HasSuffix(a, "ht.txt") || strings.HasSuffix(a, "htbad.txt") {
+			ms := mk([]string{"p", a}, false)
+			ms.MustStart = true
+			must = append(must, ms, mk([]string{"/p", "p", a}, false), mk([]string{"other", a}, false), mk([]string{"p", a}, true))
 		}
 	}
 	for _, a := range []string{"", "/p", "1"} {
@@ -477,6 +494,17 @@ func genPhase3(c *lib.Ctx, d *dirVocab, p2 []*Case, acc map[int]bool, b budget) 
 		}
 	}
 	out = capCases(r, nil, sys, b.p3sysCap)
+	// surplus tokens after the closing brace, on its line: the sub-block of
+	// the first accepted line of up to four keywords, and an empty sub-block
+	for i, kw := range kws {
+		if i >= 4 {
+			break
+		}
+		for _, after := range [][]string{{"extra"}, {"{"}, {"}"}} {
+			out = append(out, &Case{Dir: d.name, Args: head, Block: true, Lines: [][]string{variants[kw][0]}, After: after, Phase: 3})
+		}
+	}
+	out = append(out, &Case{Dir: d.name, Args: head, Block: true, After: []string{"extra"}, Phase: 3})
 	for i := 0; i < b.p3pairs; i++ {
 		ls := byHead[headKeys[r.Intn(len(headKeys))]]
 		l1 := ls[r.Intn(len(ls))]
